@@ -59,7 +59,7 @@ def coq_makefile():
 def gen_consts(tag=None):
     """regenerate coq/Gen/Consts.v from /repo's current sources; returns (ok, message).
     Patterns missing for another property's drop-in (tools/gen_consts_d/<tag>_*.py) do not count."""
-    with Lock("gen_consts"):
+    with Lock("coq"):
         rc, o, e = sh([sys.executable, os.path.join(VERIF, "tools", "gen_consts.py")], timeout=120)
         miss = {}
         try:
@@ -100,6 +100,9 @@ def coq_build(prop_file, timeout=1500, extra=()):
     files = ["Props/" + prop_file] + list(extra)
     outs = {}
     with Lock("coq"):
+        # regenerate the constants inside the lock: another check (possibly for another tree,
+        # NNGV_REPO) may have rewritten Gen/Consts.v since this run's gen_consts()
+        sh([sys.executable, os.path.join(VERIF, "tools", "gen_consts.py")], timeout=120)
         coq_makefile()
         targets = " ".join(f + ".vo" for f in files)
         rc, o, e = sh("timeout %d make -k -j16 %s" % (timeout, targets), cwd=COQ, timeout=timeout + 30)
@@ -142,6 +145,7 @@ def coq_build(prop_file, timeout=1500, extra=()):
 def model_build(*drivers):
     """extract the models and build the OCaml drivers named (incremental); e.g. model_build("msg")"""
     with Lock("coq"):
+        sh([sys.executable, os.path.join(VERIF, "tools", "gen_consts.py")], timeout=120)   # see coq_build
         rc, o, e = sh([os.path.join(VERIF, "tools", "build_models.sh")] + list(drivers), timeout=2400)
         if rc != 0:
             raise RuntimeError("model build failed:\n" + (o + e)[-3000:])
